@@ -181,6 +181,10 @@ def execute(case, hook=None):
                 else:
                     xs.append(rand_x(rng, lo, hi, known))
             xs = list(dict.fromkeys(x for x in xs if x not in l.data))  # fresh distinct points
+            redo = None
+            if known and rng.random() < 0.2:
+                redo = rng.choice(known)  # an already known point with a different value: first value must win
+                xs.append(redo)
             if not xs:
                 continue
             force = rng.random() < 0.5
@@ -189,7 +193,7 @@ def execute(case, hook=None):
                 force, batch = False, (len(xs) > 0.5 * len(l.data) and len(xs) > 2)
                 if batch:
                     xs = xs[:2]
-            ys = [f(x) for x in xs]
+            ys = [f(x) + (1.0 if x == redo else 0.0) for x in xs]
             l.tell_many(xs, ys, force=force)
             emit(f"l1 tell_many {int(force)} " + ";".join(f"{fb(x)}:{fval(y)}" for x, y in zip(xs, ys)), "ok " + obs(l))
             info = {"op": "tell_many", "xs": xs, "batch": force or (len(xs) > 2)}
